@@ -171,6 +171,9 @@ def run_case(c):
         pos = {"first": 0, "last": len(cbs), "middle": len(cbs) // 2}[c["lib_cbs"]]
         mixed = list(cbs[:pos]) + lib + list(cbs[pos:])
         cbs_arg = tuple(mixed) if form == "tuple" else mixed
+    if c.get("busy") and isinstance(cbs_arg, (list, tuple)) and form in ("list", "tuple"):
+        busy_ = gen.busy_callback()
+        cbs_arg = type(cbs_arg)(([busy_] if c["busy"] == "first" else []) + list(cbs_arg) + ([busy_] if c["busy"] == "last" else []))
     kw = dict(epochs=E, pos_batch_size=B, starting_epoch=se, lr=0.1, k=1, callbacks=cbs_arg, time=c.get("time", False))
     if c.get("sched"):
         kw.update(scheduler=torch.optim.lr_scheduler.StepLR, scheduler_args={"step_size": 1, "gamma": 0.5})
@@ -282,6 +285,9 @@ def sampled(draw, tier):
         c.update(N=draw(st.integers(1, 3)), E=c["se"] + draw(st.integers(33, 70)), fits=1)      # a long run (time axis: more than 32 / 64 epochs)
     if draw(st.integers(0, 29)) == 0:
         c.update(N=draw(st.integers(1025, 1300)), B=draw(st.sampled_from([400, 500, 1000])), E=c["se"] + draw(st.integers(1, 2)))     # a large data set
+    if c["N"] <= 6 and c["E"] - c["se"] <= 6 and draw(st.integers(0, 4)) == 0:
+        # re-entrant use: one more callback that makes public library calls on the trained state (and trains another state) from inside every hook
+        c["busy"] = draw(st.sampled_from(["first", "last"]))
     mode = draw(st.sampled_from(["none", "preset", "inject", "inject", "inject"]))
     if mode == "preset":
         c["preset"] = True
